@@ -102,6 +102,9 @@ fn pc_typed<T: Elem>(p: &PcParams) {
             loop {
                 // Free space only grows while this (the only) writer looks on:
                 // a window taken after the query offers at least that much.
+                // (A scheduling point of its own before the query: the query
+                // need not take the lock, and then has none.)
+                thread::yield_now();
                 let f = w.free();
                 let mut wb = w.write_buf().unwrap();
                 if wb.len() > cap {
